@@ -13,14 +13,13 @@ from concurrent.futures import ThreadPoolExecutor
 from vlib import tlc, tlaval, gorun, core
 
 PROPS = ['C11']
-WAKE_SLUG = 'wakeup-bare-send'
-PKEYS = {'read': ('need', 'chunks', 'maxarr', 'deadlines', 'events', 'maxt', 'inittok'),
+PKEYS_UNUSED = {'read': ('need', 'chunks', 'maxarr', 'deadlines', 'events', 'maxt', 'inittok'),
          'flush': ('qcap', 'preload', 'maxretry', 'wdeadline', 'maxt'), 'accept': ('maxbacklog',),
          'send': ('scap', 'spre', 'cwt', 'maxt')}
 
 HARNESS = ['zz_vs_sched.go', 'zz_pair_test.go', 'zz_blocking_test.go']
 INSTR = {"files": {
-    "stream.go": {"funcs": ["pendingData.moveTo", "pendingData.clear", "Stream.getStreamState"]},
+    "stream.go": {"funcs": ["pendingData.moveTo", "pendingData.clear", "pendingData.add", "Stream.getStreamState"]},
     "queue.go": {"funcs": ["queue.put"]},
 }}
 
@@ -36,14 +35,17 @@ CONSTANTS
   SPre = %(spre)d
   CWT = %(cwt)d
   SMaxT = %(smaxt)d
+  NSteps = 3
+  IT = 1
+  IMaxT = 1
 INVARIANTS %(invs)s
 %(props)s
 CHECK_DEADLOCK FALSE
 """
 
-INVS = {'read': ['NoBadResult', 'ReadTypeOK'], 'flush': ['FlushResultOK'], 'accept': ['AcceptResultOK'],
-        'send': ['SendResultOK']}
-LIVE = {'read': ['ReadReturns'], 'flush': ['FlushReturns'], 'accept': ['AcceptReturns'], 'send': ['SendReturns']}
+INVS = {'read': ['NoBadResult', 'ReadTypeOK', 'NoEosWithData'], 'flush': ['FlushResultOK'], 'accept': ['AcceptResultOK'],
+        'send': ['SendResultOK'], 'init': ['InitResultOK']}
+LIVE = {'read': ['ReadReturns'], 'flush': ['FlushReturns'], 'accept': ['AcceptReturns'], 'send': ['SendReturns', 'WakeReturns'], 'init': ['InitReturns']}
 
 
 def tlaset(xs):
@@ -86,15 +88,17 @@ ALLEV = ['arr', 'half', 'close', 'sess']
 
 
 def configs(tier):
-    quick = mkrun('q', ['read', 'flush', 'accept', 'send'], [
+    quick = mkrun('q', ['read', 'flush', 'accept', 'send', 'init'], [
         # one read without deadline, every releasing event, stale or no notification token at entry
-        rcfg(1, [0], [1, 2], 2, ALLEV, 0, [0, 1]),
+        rcfg(1, [0], [1, 2], 2, ['arr', 'half', 'close'], 0, [0, 1]),
+        # ... and the session dying (Close / peer disappeared) with the teardown posted to the event loop
+        rcfg(5, [0], [2], 1, ['arr', 'close', 'sess'], 0, [0]),
         # two reads with deadlines (timer reuse across calls), data and peer close
         rcfg(2, [1, 2], [2], 1, ['arr', 'half'], 2, [0]),
     ], [
         # Flush against a full queue: attempt 0 + 10 retries; the peer may drain the queue, close; the session may close
-        fcfg(1, 2, 2, 0, 0),
-        fcfg(2, 2, 2, 1, 1),
+        fcfg(1, 1, 1, 0, 0),
+        fcfg(2, 1, 1, 1, 1),
     ])
     if tier != 'thorough':
         return [quick]
@@ -143,7 +147,7 @@ def label(l):
     return m.group(1), int(m.group(2) or 0)
 
 
-RPOS = {'idle': 'idle', 'a1': 'mv', 'a2': 'mv', 'm1': 'mv', 'm2': 'mv', 'c1': 'mv', 'c2': 'mv', 'b': 'st', 'b2': 'st',
+RPOS = {'idle': 'idle', 'a1': 'mv', 'a2': 'mv', 'bm1': 'mv', 'bm2': 'mv', 'm1': 'mv', 'm2': 'mv', 'c1': 'mv', 'c2': 'mv', 'b': 'st', 'b2': 'st',
         'c3': 'st', 'sel': 'sel'}
 
 
@@ -167,19 +171,25 @@ def proj_accept(st):
 def proj_send(st):
     qlen = st['ahead'] + st['behind'] + (1 if st['mine'] == 'queued' else 0)
     return {'wpos': 'idle' if st['spc'] == 'idle' else 'blocked', 'res': st['sres'],
-            'kpos': {'idle': 'idle', 'send': 'blocked', 'done': 'done'}[st['kpc']], 'full': qlen >= SCAP[0],
+            'kpos': {'idle': 'idle', 'send': 'blocked', 'done': 'done', 'shut': 'shut'}[st['kpc']], 'full': qlen >= SCAP[0],
             'sess': st['ssess'], 'wblk': st['wblk'], 'now': st['now']}
 
 
 SCAP = [2]
-SENDINT = ('SEnq', 'SShut', 'STimeout', 'SAck', 'STimerFire', 'LoopTake', 'LoopWritten', 'LoopWriteFails', 'LoopExit', 'KSend')
-PROJ = {'read': proj_read, 'flush': proj_flush, 'accept': proj_accept, 'send': proj_send}
+SENDINT = ('SEnq', 'SShut', 'STimeout', 'SAck', 'STimerFire', 'LoopTake', 'LoopWritten', 'LoopWriteFails', 'LoopExit', 'KSend', 'KShut')
+def proj_init(st):
+    return {'pos': {'idle': 'idle', 'wait': 'blocked', 'shut': 'blocked', 'done': 'done'}[st['ipc']], 'res': st['ires'],
+            'k': st['ik'], 'peer': st['ipeer'], 'now': st['now']}
+
+
+INITINT = ('GoDone', 'GoFail', 'IResult', 'ITimeout', 'IJoin')
+PROJ = {'read': proj_read, 'flush': proj_flush, 'accept': proj_accept, 'send': proj_send, 'init': proj_init}
 INTERNAL = {'read': lambda a: a.startswith('R_') or a == 'TimerFire',
             'flush': lambda a: a.startswith('FWait') or a == 'FAttempt',
-            'accept': lambda a: a.startswith('ASel'), 'send': lambda a: a in SENDINT}
+            'accept': lambda a: a.startswith('ASel'), 'send': lambda a: a in SENDINT, 'init': lambda a: a in INITINT}
 WAITER = {'read': lambda a: a.startswith('R_'),
           'flush': lambda a: a.startswith('FWait') or a == 'FAttempt',
-          'accept': lambda a: a.startswith('ASel'), 'send': lambda a: a in SENDINT}
+          'accept': lambda a: a.startswith('ASel'), 'send': lambda a: a in SENDINT, 'init': lambda a: a in INITINT}
 
 
 def obs_match(p, obs):
@@ -259,14 +269,23 @@ def greedy(scheds, paths, b, rng):
     return [scheds[i] for i in chosen]
 
 
-def spec_path(g, mode, labels):
+MUST = [
+    ('timer-reuse', 2, ['RStart', 'R_a1', 'R_a2', 'R_b', 'ArrBegin(2)', 'ArrAdd', 'ArrNotify', 'R_selTok', 'RTick', 'TimerFire',
+                        'R_m1', 'R_m2', 'RStart', 'R_a1', 'R_a2', 'R_b']),
+    ('timer-reuse-close-arm', 2, ['RStart', 'R_a1', 'R_a2', 'R_b', 'HalfClose', 'R_selCls', 'RTick', 'TimerFire', 'R_c1', 'R_c2',
+                                  'R_c3', 'RStart', 'R_a1', 'R_a2', 'R_b', 'R_bm1', 'R_bm2', 'R_b2']),
+]
+
+
+def spec_path(g, mode, labels, cid=None):
     """follow the action labels from the initial state of `mode`; None if it is not a path of the graph"""
-    cur = [n for n in g.inits if g.state(n)['mode'] == mode]
+    cur = [n for n in g.inits if g.state(n)['mode'] == mode and (cid is None or (g.proj(n)['cid'] == cid and
+                                                                                  g.state(n).get('tok', 0) == 0))]
     if not cur:
         return None
     n = cur[0]
     for a in labels:
-        nxt = [d for (l, d, _i) in g.out.get(n, []) if label(l)[0] == a]
+        nxt = [d for (l, d, _i) in g.out.get(n, []) if label(l) == label(a)]
         if not nxt:
             return None
         n = nxt[0]
@@ -301,8 +320,10 @@ def schedules_from(g, rng, budget):
         if b and len(mine) > b:
             mine = greedy(mine, paths, b, rng)
         # every other session close of the read schedules is "the peer disappeared" (exitErr) instead of Close()
+        # ... and every second schedule is replayed with an eager reader (woken by an event it runs on at once)
         for k_, sc in enumerate(mine):
             sc['peer_died'] = (k_ % 2 == 1)
+            sc['eager'] = (k_ % 4 >= 2)
         scheds += mine
     return scheds, totals
 
@@ -332,14 +353,6 @@ def run_tlc(cfg):
         shutil.rmtree(wd, ignore_errors=True)
 
 
-def run_wake_lead(consts):
-    """the bare `sendCh <- x` of wakeUpPeer's slow path: TLC is asked for WakeReturns and is expected to refute it"""
-    cfg = mkrun('wake', ['send'], [], [], scap=consts['scap'], spre=consts['spre'], cwt=consts['cwt'], smaxt=consts['smaxt'],
-                props=['WakeReturns'], invs=[])
-    res = tlc.run(cfg['module'], cfg['cfg'], workers=2, timeout=900, extra_files=cfg['files'], tlc_args=['-lncheck', 'final'])
-    return cfg, res
-
-
 def run(prop, tier, seed, replay=None):
     ck = core.Check(prop, 'model_checking', tier, seed)
     rng = random.Random(ck.seed)
@@ -360,7 +373,6 @@ def run(prop, tier, seed, replay=None):
     # compile the instrumented package while TLC runs (the second go test then hits the build cache)
     warm = ex.submit(lambda: gorun.run_harness('^TestVS_Blocking$', HARNESS, INSTR, inputs={'job': {'schedules': []}}, timeout=900))
     SCAP[0] = cfgs[0]['consts']['scap']
-    wake = ex.submit(run_wake_lead, cfgs[0]['consts'])
     graphs = []
     for (cfg, res, nodes, edges, inits) in ex.map(run_tlc, cfgs):
         if res.violation:
@@ -382,8 +394,8 @@ def run(prop, tier, seed, replay=None):
         return ck.finish()
     ck.cov['exhaustive'] = True
 
-    budget = {'read': 60, 'flush': 25, 'accept': 40, 'send': 40} if ck.tier == 'quick' else \
-        {'read': 1500, 'flush': 300, 'accept': 100, 'send': 400}
+    budget = {'read': 60, 'flush': 25, 'accept': 40, 'send': 40, 'init': 14} if ck.tier == 'quick' else \
+        {'read': 1500, 'flush': 300, 'accept': 100, 'send': 400, 'init': 60}
     allsched, bygraph = [], {}
     for g in graphs:
         sc, totals = schedules_from(g, rng, budget)
@@ -392,39 +404,41 @@ def run(prop, tier, seed, replay=None):
         for s in sc:
             bygraph[s['name']] = (g, s)
         allsched += sc
-    # the lead on the bare send: TLC's counterexample to WakeReturns becomes a schedule staged on the real code
-    wcfg, wres = wake.result()
-    known_wake = ('C11', WAKE_SLUG) in known
-    refuted = 'Temporal property WakeReturns was violated' in wres.out or wres.violation == 'temporal'
-    if refuted:
-        trace = tlc.parse_error_trace(wres.out)
-        ck.cov['wake_lead'] = ('TLC refutes WakeReturns on the specification (%d-state counterexample, %d distinct states, %.0fs): '
-                               '%s' % (len(trace), wres.distinct, wres.wall, ' '.join(label(l)[0] for (l, _s) in trace[1:])))
-        ck.add('states', wres.distinct)
-        ck.add('transitions', wres.generated)
-        # the same end state reached by a behaviour that can be staged (the Flush enters wakeUpPeer while the session is
-        # still up); it must be a path of the TLC graph and end where the counterexample loops
-        wit = ['SStart', 'SEnq', 'KStart', 'SSessClose', 'SShut', 'SSessLambda', 'LoopWriteFails', 'LoopExit']
-        gq = graphs[0]
-        end = spec_path(gq, 'send', wit)
-        if end is not None and gq.state(end)['kpc'] == 'send' and gq.state(end)['lp'] == 'exited':
-            c = cfgs[0]['consts']
-            for i in range(8 if ck.tier == 'quick' else 20):
-                sc = {'name': 'wake-witness-%d' % i, 'mode': 'send', 'cid': 0, 'steps': [{'a': a, 'k': 0} for a in wit],
-                      'scap': c['scap'], 'spre': c['spre'], 'cwt': c['cwt'], 'need': 2, 'deadlines': [0]}
-                allsched.append(sc)
-                bygraph[sc['name']] = (gq, sc)
-        else:
-            ck.notes.append('the hand-ordered witness for the bare send is not a behaviour of the specification any more')
-    elif wres.ok:
-        ck.cov['wake_lead'] = 'TLC proves WakeReturns on this specification (%d states)' % wres.distinct
+    # must-replay behaviours (each verified to be a path of the TLC graph): the read timer fires while the reader is
+    # outside the select and the read returns by the data arm - the next read must not see a stale timer value
+    gq = graphs[0]
+    for nm, cid, lbls in MUST:
+        end = spec_path(gq, 'read', lbls, cid)
+        if end is None:
+            ck.notes.append('must-replay behaviour %s is not a behaviour of the specification any more' % nm)
+            continue
+        init = [n for n in gq.inits if gq.state(n)['mode'] == 'read' and gq.proj(n)['cid'] == cid and gq.state(n)['tok'] == 0][0]
+        st = gq.state(init)
+        sc = {'name': 'must-' + nm, 'mode': 'read', 'cid': cid, 'steps': [{'a': label(l)[0], 'k': label(l)[1]} for l in lbls],
+              'init_tok': 0, 'need': 2, 'deadlines': list(st['rc']['dl']), 'peer_died': False, 'eager': False}
+        allsched.append(sc)
+        bygraph[sc['name']] = (gq, sc)
+    # regression witness of the fixed finding wakeup-bare-send (commit 4dc1e7e): the behaviour of the specification that
+    # used to end with the Flush stuck in the bare send; it must be a path of the TLC graph, and on the real code the
+    # Flush must now come back with the shutdown error
+    wit = ['SStart', 'SEnq', 'KStart', 'SSessClose', 'KShut', 'SShut', 'SSessLambda', 'LoopWriteFails', 'LoopExit']
+    gq = graphs[0]
+    end = spec_path(gq, 'send', wit)
+    if end is not None and gq.state(end)['kpc'] == 'shut' and gq.state(end)['lp'] == 'exited':
+        c = cfgs[0]['consts']
+        for i in range(8 if ck.tier == 'quick' else 24):
+            sc = {'name': 'wake-witness-%d' % i, 'mode': 'send', 'cid': 0, 'steps': [{'a': a, 'k': 0} for a in wit],
+                  'scap': c['scap'], 'spre': c['spre'], 'cwt': c['cwt'], 'need': 2, 'deadlines': [0]}
+            allsched.append(sc)
+            bygraph[sc['name']] = (gq, sc)
+        ck.cov['wake_regression_witness'] = ' '.join(wit)
     else:
-        ck.notes.append('the TLC run for WakeReturns did not complete: %s' % (wres.error or wres.out[-300:]))
+        ck.notes.append('the regression witness for the slow-path send is not a behaviour of the specification any more')
     try:
         warm.result()
     except Exception:
         pass
-    job = {'schedules': allsched, 'bound_ms': 10000, 'tick_ms': 150, 'known_wake': known_wake}
+    job = {'schedules': allsched, 'bound_ms': 10000, 'tick_ms': 150}
     g = gorun.run_harness('^TestVS_Blocking$', HARNESS, INSTR, inputs={'job': job}, timeout=2400)
     if g.result is None:
         ck.inconc('harness produced no result (rc=%d): %s' % (g.rc, g.out[-2500:]))
@@ -471,14 +485,7 @@ def handle(ck, r, bygraph, known):
         print('SPEC-DRIFT module=Blocking at=%s' % d)
     if drift:
         ck.notes.append('%d recorded runs are not behaviours of the specification (first: %s)' % (len(drift), drift[0]))
-    ck.cov['wake_bare_send_stuck_runs'] = r.get('wake_stuck', 0)
-    if r.get('wake_stuck'):
-        if ('C11', WAKE_SLUG) in known:
-            ck.known(WAKE_SLUG, '%s [reproduced on the real code in %d staged runs: %s]' % (
-                known[('C11', WAKE_SLUG)][:200], r['wake_stuck'], r['wake_witness'][:600]))
-            ck.cov['known_finding_class_executions_pruned'] = r['wake_stuck']
-    elif ('C11', WAKE_SLUG) in known:
-        ck.notes.append('the listed finding %s did not reproduce in this run' % WAKE_SLUG)
+    ck.cov['wake_slow_path_stuck_runs'] = r.get('wake_stuck', 0)
     if r.get('eos_with_data'):
         ck.notes.append('observation outside C11 (lead for C07): ReadBytes returned end-of-stream although enough bytes had been '
                         'delivered, %d runs; e.g. %s' % (r['eos_with_data'], r['eos_witness']))
